@@ -31,7 +31,8 @@ class Problem:
         self.n = int(sum(lengths))
         self.dim = t.irange(1, 4)
         self.dtype = dtype or t.choice(M.DTYPES)
-        self.metric_name = metric or t.choice(('euclidean', 'euclidean', 'manhattan', 'callable'))
+        self.metric_name = metric or t.choice(('euclidean', 'euclidean', 'manhattan', 'callable', 'euclidean', 'manhattan', 'callable',
+                                               'callable_reuse'))
         self.jitter = not t.flag(1, 8)
         self.X = M.gen_points(t, self.n, self.dim, self.dtype, self.jitter)
         self.scale = 1.0
